@@ -597,7 +597,7 @@ def run(tier, seed):
         a1s = A1[rot:] + A1[:rot]
         a2s = A2[rot:] + A2[:rot]
         a1s, a2s = a1s[:2], a2s[:2]
-        amts = A1[:2] + ['i:0']
+        amts = A1[:2] + ['i:0', 'F:1/3']
         nums = NUMS[:7]
     total.merge(pmap(part_pairs, [[s] for s in syms], (a1s, a2s)))
     total.merge(pmap(part_pow_num, [syms[i::16] for i in range(16)],
